@@ -24,6 +24,8 @@ AN = "ide::ide::Analysis"
 
 
 def run(F, res, tier):
+    from rules import c11 as _c11h9
+    _c11h9.every_part_of_a_change_is_applied(F, res, rule="K11")   # a dropped input: later snapshots do not see the new workspace
     methods = [f for p, f in F.fns.items() if f.d.get("impl_self") == AN and not f.d.get("impl_trait") and f.kind == "AssocFn"]
     pub = [f for f in methods if f.d.get("vis") == "Public"]
     res.floor("public query methods of Analysis", len(pub), 11)
